@@ -3,6 +3,7 @@ from .common import pyvc_units
 LEVEL = "other"
 MODULES = ["vf.contracts.c_state", "vf.contracts.c_heralding", "vf.contracts.c_annotated"]
 EXPLANATION = ('Clause table. PROVED unbounded (pyvc): State.__add__ (concatenation, TypeError iff not a State), merge (pointwise sum, ValueError iff lengths differ), __eq__ (list equality), s (fresh copy), n_photons (sum), __len__, __getitem__, setters always raise and change nothing, _validate; add_heralds_to_state (C03); remove_heralds_from_state = order-preserving deletion of any list of distinct in-range modes in any order, result fresh, argument unchanged (ghost index maps g / g^-1); db_loss_to_decimal in [0,1), decimal_to_db_loss >= 0 with ValueError iff outside [0,1); lemmas (z3): dB -> decimal -> dB = |x| and decimal -> dB -> decimal = identity from the two contracts and the axioms for 10**x / log10. BOUNDED (native): remove(add(s,h), keys in any order) = s for all states <=3 modes x <=3 heralds x all positions and key orders (9416 cases); State laws incl. hash coherence, slices, associativity; AnnotatedState with label multisets (order irrelevant); random_unitary / random_permutation valid and reproducible for seeds {0,1,2,3,7,42,2^31-1}, N<=5. ASSUMED: scipy unitary_group / numpy permutation distributions; str of equal int lists equal. ADDED LATER (bounded): the list passed to State(...) is not shared, item access / iteration / slices of an AnnotatedState hand out copies, seeded matrices are not shared between calls, integral seeds of other numeric types. PROVED LATER (pyvc): State.__init__ stores a new list with the given entries (the argument is neither kept nor changed); AnnotatedState.__getitem__(i) returns a new list; process_random_seed.')
+EXPLANATION = EXPLANATION + ' ADDED IN ROUNDS 5-8. PROVED (pyvc): AnnotatedState.__init__ owns every per-mode list, .s, n_photons, merge, +. BOUNDED: every slice form incl. negative steps, every integer index from -n to n-1, += re-binds and never mutates, numpy-integer occupations hash like Python ints, AnnotatedState constructor aliasing.'
 ASSUMPTIONS = ["A1: reals; 10**x and log10 mutually inverse (axioms)", "A6: str of equal int lists are equal (hash coherence)",
                "scipy unitary_group / numpy Generator.permutation: validity and distribution assumed, reproducibility checked bounded"]
 TRUSTED = ["z3 5.1", "pyvc encoding of the Python subset", "Lean 4.33 kernel + Mathlib (lemma Lcard is kernel-checked on every run)"]
